@@ -112,7 +112,13 @@ def fn_worker(task):
             for pp in ((3, 3), (3, 2)) if (j % 7 == 0) else ((3, 3),):
                 cnt += 1
                 want = ref_intersection(my, peer, *pp)
-                got = L(my, pp[0]).intersection(L(peer, pp[1]))
+                pnum = 2 + j % 5
+                got = L(my, pp[0]).intersection(lib_prop(peer, pp[1], num=pnum, spi=b'PEER'))
+                if got is not None and got.num != pnum and not any(f.sig == 'intersection-proposal-number' for f in st_.failures):
+                    # RFC 7296 3.3.1: the number in the answer MUST match the number of the proposal that was accepted
+                    st_.failures.append(Failure('intersection-proposal-number',
+                                                f'Proposal.intersection(local #1 {my}, peer #{pnum} {peer}) carries proposal number '
+                                                f'{got.num}', {'kind': 'fn', 'my': my, 'peer': peer, 'pp': pp}))
                 gv = None if got is None else tview(got)
                 wv = None if want is None else {k: v for k, v in want.items()}
                 nt = my != peer
@@ -178,9 +184,11 @@ def replay_fn(case):
     fails = []
     if case['kind'] == 'fn':
         my, peer, pp = tuple(map(tuple, case['my'])), tuple(map(tuple, case['peer'])), tuple(case['pp'])
-        got = lib_prop(my, pp[0]).intersection(lib_prop(peer, pp[1]))
+        got = lib_prop(my, pp[0]).intersection(lib_prop(peer, pp[1], num=5, spi=b'PEER'))
         want = ref_intersection(my, peer, *pp)
         gv = None if got is None else tview(got)
+        if got is not None and got.num != 5:
+            fails.append(Failure('intersection-proposal-number', f'the result carries proposal number {got.num}, the accepted one is #5'))
         if gv != (None if want is None else dict(want)) or (got is not None and len(got.transforms) != len(gv)):
             fails.append(Failure('intersection', f'intersection = {gv}, specification {want}'))
         if bool(lib_prop(my, pp[0]).is_subset(lib_prop(peer, pp[1]))) != ref_is_subset(my, peer, *pp):
